@@ -89,6 +89,9 @@ def mechanism(got, exp):
 def make_line(rng, k):
     n = rng.choice((1, 1, 2, 2, 3, 4, 6))
     toks = [rng.choice(VOCAB) for _ in range(n)]
+    if rng.random() < 0.12:
+        # a number followed by '.' or ')' - a list marker only where 5.2 says so (the predicate decides)
+        toks.insert(0, '%d%s' % (rng.choice((0, 1, 2, 9, 10, 11, 21, 41, 99, 100, 101, 1991, 2021, rng.randint(0, 99999))), rng.choice('.)')))
     line = ' '.join(toks)
     indent = rng.choice((0, 0, 0, 1, 2, 3)) if k == 0 else rng.choice((0, 0, 0, 1, 2, 3, 4, 5, 8))
     if rng.random() < 0.1:
